@@ -221,3 +221,118 @@ Proof.
 Qed.
 
 End Body.
+
+(* ---- with a declared length ---------------------------------------------------- *)
+
+Section BodyLen.
+Variable cap : str -> str.
+Variable lower : str -> str.
+Variable c : cfg.
+Variable r : req.
+
+Lemma py_slice_all d k : (Z.of_nat (length d) <= k)%Z -> py_slice_to d k = d.
+Proof.
+  intro H. unfold py_slice_to. destruct (k <? 0)%Z eqn:E; [lia|].
+  apply firstn_all2. lia.
+Qed.
+
+(* a chunk that fits into what is left of the declared length goes out unchanged *)
+Lemma write_body_len t ch data cl :
+  t_clen t = Some cl -> t_chunked t = false -> has_body t = true ->
+  (t_cbw t + Z.of_nat (length data) <= cl)%Z ->
+  exists t' ch', write_body None (t, ch) data = ((t', ch'), Ok tt)
+    /\ same_head t t' /\ t_cbw t' = (t_cbw t + Z.of_nat (length data))%Z
+    /\ chan_wire ch' = chan_wire ch ++ data.
+Proof.
+  intros Hcl Hck Hb Hfit. unfold write_body.
+  destruct data as [|x data].
+  - exists t, ch. repeat split; auto; try apply same_head_refl. cbn. lia. rewrite app_nil_r. auto.
+  - rewrite Hb, Hck, Hcl.
+    rewrite py_slice_all by lia.
+    rewrite write_soon_connected. eexists _, _. split; [reflexivity|].
+    split; [unfold same_head; cbn; tauto|]. split; [reflexivity|].
+    destruct ch as [ws n]. apply chan_wire_push.
+Qed.
+
+Lemma iterate_after_head_len chunks : forall t ch is_first cl,
+  t_complete t = true -> t_wrote_header t = true -> t_clen t = Some cl ->
+  t_chunked t = false -> has_body t = true ->
+  (t_cbw t + Z.of_nat (length (concat chunks)) <= cl)%Z ->
+  exists t' ch',
+    iterate cap lower c r None false false is_first (t, ch) (plain_steps chunks) = ((t', ch'), Ok tt)
+    /\ same_head t t' /\ t_cbw t' = (t_cbw t + Z.of_nat (length (concat chunks)))%Z
+    /\ chan_wire ch' = chan_wire ch ++ concat chunks.
+Proof.
+  induction chunks as [|d chunks IH]; intros t ch is_first cl Hc Hw Hcl Hck Hb Hfit.
+  - exists t, ch. cbn. repeat split; auto; try apply same_head_refl. lia. rewrite app_nil_r. reflexivity.
+  - cbn [plain_steps map iterate run_actions s_acts s_res andb].
+    rewrite Hcl. assert (Hif : (if is_first then t else t) = t) by (destruct is_first; reflexivity).
+    rewrite Hif. cbn [concat] in Hfit. rewrite app_length, Nat2Z.inj_add in Hfit.
+    destruct d as [|x d].
+    + destruct (IH t ch false cl Hc Hw Hcl Hck Hb) as (t' & ch' & E & S1 & B1 & W1); [cbn in Hfit; lia|].
+      exists t', ch'. fold (plain_steps chunks). rewrite E. cbn [concat List.app].
+      split; [reflexivity|]. split; [exact S1|]. split; [exact B1|exact W1].
+    + rewrite task_write_body by auto.
+      destruct (write_body_len t ch (x :: d) cl Hcl Hck Hb) as (t1 & ch1 & E1 & S1 & B1 & W1); [lia|].
+      rewrite E1.
+      pose proof S1 as (A1 & A2 & A3 & A4 & A5 & A6 & A7 & A8).
+      destruct (IH t1 ch1 false cl) as (t' & ch' & E & S2 & B2 & W2); try congruence.
+      { rewrite (same_head_has_body _ _ S1). exact Hb. }
+      { rewrite B1. lia. }
+      exists t', ch'. fold (plain_steps chunks). rewrite E. split; [reflexivity|].
+      split; [eapply same_head_trans; eauto|]. split.
+      * rewrite B2, B1. cbn [concat]. rewrite app_length, Nat2Z.inj_add. lia.
+      * rewrite W2, W1, <- app_assoc. reflexivity.
+Qed.
+
+Lemma all_empty_concat chunks : all_empty chunks -> concat chunks = [].
+Proof. induction 1 as [|d l -> Hl IH]; cbn; auto. Qed.
+
+Lemma iterate_fresh_len chunks : forall t ch is_first cl s' o,
+  t_complete t = true -> t_wrote_header t = false -> t_clen t = Some cl -> t_cbw t = 0%Z ->
+  t_chunked (bh_prepare cap lower c r t) = false -> has_body t = true ->
+  (Z.of_nat (length (concat chunks)) <= cl)%Z ->
+  iterate cap lower c r None false false is_first (t, ch) (plain_steps chunks) = (s', o) ->
+  o = Ok tt ->
+  (all_empty chunks /\ s' = (t, ch))
+  \/ (exists tp head, build_response_header cap lower c r t = (tp, Ok head)
+        /\ same_head (set_wrote true tp) (fst s')
+        /\ t_cbw (fst s') = Z.of_nat (length (concat chunks))
+        /\ chan_wire (snd s') = chan_wire ch ++ head ++ concat chunks).
+Proof.
+  induction chunks as [|d chunks IH]; intros t ch is_first cl s' o Hc Hw Hcl Hcbw Hck Hb Hfit H Ho.
+  - cbn in H. inversion H; subst. left. split; [constructor|reflexivity].
+  - cbn [plain_steps map iterate run_actions s_acts s_res andb] in H.
+    rewrite Hcl in H. assert (Hif : (if is_first then t else t) = t) by (destruct is_first; reflexivity).
+    rewrite Hif in H. cbn [concat] in Hfit. rewrite app_length, Nat2Z.inj_add in Hfit.
+    destruct d as [|x d].
+    + fold (plain_steps chunks) in H.
+      destruct (IH t ch false cl s' o Hc Hw Hcl Hcbw Hck Hb) as [[Ha ->]|(tp & head & Eb & S1 & B1 & W1)]; auto.
+      * left. split; [constructor; auto|reflexivity].
+      * right. exists tp, head. cbn [concat List.app]. auto.
+    + right. unfold task_write in H. cbn [fst] in H. rewrite Hc in H. cbn [negb] in H.
+      destruct (write_header cap lower c r None (t, ch)) as [s1 o1] eqn:Eh.
+      pose proof (write_header_fresh cap lower c r t ch s1 o1 Hw Eh) as Hh.
+      destruct (build_response_header cap lower c r t) as [tp [head|e]] eqn:Eb.
+      2: { subst o1. destruct s1. inversion H; subst. discriminate. }
+      destruct Hh as (-> & Ht & Hwire). destruct s1 as [t1 ch1]. cbn [fst snd] in *. subst t1.
+      assert (Etp : tp = bh_prepare cap lower c r t) by (unfold build_response_header in Eb; inversion Eb; auto).
+      destruct (keeps_bh_prepare cap lower c r t) as (K1 & _ & K3 & K4 & K5).
+      rewrite <- Etp in K1, K3, K4, K5, Hck.
+      assert (Hbp : has_body tp = true) by (unfold has_body in *; rewrite K5; exact Hb).
+      destruct (write_body_len (set_wrote true tp) ch1 (x :: d) cl) as (t2 & ch2 & E2 & S2 & B2 & W2);
+        try (cbn [t_clen t_chunked t_cbw set_wrote]; congruence); auto.
+      { cbn [t_cbw set_wrote]. rewrite K4, Hcbw. lia. }
+      rewrite E2 in H. fold (plain_steps chunks) in H.
+      pose proof S2 as (A1 & A2 & A3 & A4 & A5 & A6 & A7 & A8).
+      cbn [t_status t_chunked t_cof t_wrote_header t_complete t_clen t_rh t_v11 t_cbw set_wrote] in *.
+      destruct (iterate_after_head_len chunks t2 ch2 false cl) as (t3 & ch3 & E3 & S3 & B3 & W3); try congruence.
+      { rewrite (same_head_has_body _ _ S2). exact Hbp. }
+      { rewrite B2, K4, Hcbw. lia. }
+      rewrite E3 in H. inversion H; subst. cbn [fst snd].
+      exists tp, head. split; auto. split; [eapply same_head_trans; eauto|]. split.
+      * rewrite B3, B2, K4, Hcbw. cbn [concat]. rewrite app_length, Nat2Z.inj_add. lia.
+      * rewrite W3, W2, Hwire, <- !app_assoc. reflexivity.
+Qed.
+
+End BodyLen.
